@@ -49,7 +49,12 @@ def main(argv=None):
     t0 = time.time()
     if a.prop in ("C06", "C19"):
         from pv import ccheck
-        return ccheck.main(a.prop, a.tier, seed)
+        try:
+            return ccheck.main(a.prop, a.tier, seed)
+        except Exception:
+            traceback.print_exc()
+            print(f"CHECKER-ERROR property={a.prop}")
+            return 3
     from pv import plans
     plan = plans.PLANS.get(a.prop)
     if plan is None:
